@@ -522,6 +522,8 @@ class Gen:
         if bt == BUNI:
             n = 2 * r.choice([1, 2, 3])
         en = r.choice([None, None, None, 6, 8, 7]) if bt != BUNI else r.choice([None, None, 7])
+        if r.random() < 0.06:
+            en = r.choice([1, 4, 0])  # illegal encoding for a string object: odxraise at run time
         return std(bt, 8 * n, en, r.random() < 0.7)
 
     def dyn_dct(self, lenkeys):
@@ -675,7 +677,7 @@ class Gen:
         if depth < self.max_depth and x < 0.18:
             return self.structure(depth + 1)
         if self.fields and depth < self.max_depth and x < 0.30:
-            s = self.structure(depth + 1, nonempty=r.random() < 0.9, allow_dyn=False)
+            s = self.structure(depth + 1, nonempty=r.random() < 0.9, allow_dyn=r.random() < 0.35)
             fk = r.choice(["static", "dynlen", "eop" if last else "dynlen", "endmarker"])
             if fk == "static":
                 need = self.static_size(s)
@@ -788,6 +790,31 @@ class Gen:
             if bytepos is not None:
                 cursor = bytepos
             cursor += ((bitpos or 0) + (bl if bl is not None else 16) + 7) // 8
+        return ps
+
+    def permuted_params(self, response=False):
+        """static sequential layout, every parameter with an explicit byte position, listed in random order"""
+        r = self.rng
+        ps = []
+        cursor = 0
+        for _ in range(r.choice([2, 3, 3, 4, 5])):
+            nm = self.name()
+            x = r.random()
+            if x < 0.3:
+                d = std(BUINT, r.choice([8, 16, 4]), None, r.random() < 0.8)
+                kind = dict(k="coded", dct=d, v=r.randint(0, (1 << d["bl"]) - 1))
+                bl = d["bl"]
+            elif x < 0.4:
+                kind = dict(k="reserved", bl=r.choice([4, 8, 12]))
+                bl = kind["bl"]
+            else:
+                d = simple(self.int_dct(small=True))
+                kind = dict(k="value", dop=d, dflt=None)
+                bl = d["dct"]["bl"]
+            bitpos = r.choice([None, None, r.randint(0, 7)])
+            ps.append(param(nm, kind, cursor, bitpos))
+            cursor += ((bitpos or 0) + bl + 7) // 8 + r.choice([0, 0, 1])
+        r.shuffle(ps)
         return ps
 
     def structure(self, depth, nonempty=False, allow_dyn=True):
